@@ -236,7 +236,7 @@ def h_assign(n: int, m: int, k: int, s1: int, r1: int, s2: int, r2: int):
 
 
 def h_replace(t: str, old: str, n: int, cnt: int, k: int, s1: int, r1: int, s2: int, r2: int, form: int):
-    """form 0: plain str replacement 'XY'; 1: AnsiString('XY', 'underline'); 2: AnsiStr; 3: empty str; 4: expandtabs-like 1 char."""
+    """form 0: plain str replacement 'XY'; 1: AnsiString 'XY' with red on X; 2: AnsiStr('XY', 'bold'); 3: empty str; 4: expandtabs-like 1 char."""
     if len(t) != n or ESC in t or old == '' or len(old) > 2:
         return None
     s = styled(t, n, k, s1, r1, s2, r2)
@@ -247,11 +247,11 @@ def h_replace(t: str, old: str, n: int, cnt: int, k: int, s1: int, r1: int, s2: 
     new_text = ('XY', 'XY', 'XY', '', 'Q')[f]
     if f == 1:
         new = AnsiString('XY')
-        new.apply_formatting('underline', 0, 1)
-        new_tab = [['4'], []]
+        new.apply_formatting('red', 0, 1)       # red is also in the receivers' alphabet: equal settings at the seam
+        new_tab = [['31'], []]
     elif f == 2:
-        new = AnsiStr('XY', 'underline')
-        new_tab = [['4'], ['4']]
+        new = AnsiStr('XY', 'bold')
+        new_tab = [['1'], ['1']]
     else:
         new = new_text
         new_tab = None
